@@ -72,13 +72,13 @@ func DecodeAction(data []byte) (Action, error) {
 	case ActionType_Output:
 		a = new(ActionOutput)
 	case ActionType_CopyTtlOut:
-		a = new(ActionHeader)
+		a = new(ActionDecNwTtl)
 	case ActionType_CopyTtlIn:
-		a = new(ActionHeader)
+		a = new(ActionDecNwTtl)
 	case ActionType_SetMplsTtl:
 		a = new(ActionMplsTtl)
 	case ActionType_DecMplsTtl:
-		a = new(ActionHeader)
+		a = new(ActionDecNwTtl)
 	case ActionType_PushVlan:
 		a = new(ActionPush)
 	case ActionType_PopVlan:
@@ -100,7 +100,7 @@ func DecodeAction(data []byte) (Action, error) {
 	case ActionType_PushPbb:
 		a = new(ActionPush)
 	case ActionType_PopPbb:
-		a = new(ActionHeader)
+		a = new(ActionDecNwTtl)
 	case ActionType_Experimenter:
 		// For Experimenter message, the length of action should be at least 10 bytes,
 		// including type(2 byte), length(2 byte), vendor(4 byte), and subtype(2 byte)
@@ -275,6 +275,40 @@ type ActionMplsTtl struct {
 	pad     []byte // 3bytes
 }
 
+func NewActionMplsTtl(ttl uint8) *ActionMplsTtl {
+	act := new(ActionMplsTtl)
+	act.Type = ActionType_SetMplsTtl
+	act.Length = act.Len()
+	act.MplsTtl = ttl
+	return act
+}
+
+func (a *ActionMplsTtl) Len() (n uint16) {
+	return a.ActionHeader.Len() + 4
+}
+
+func (a *ActionMplsTtl) MarshalBinary() (data []byte, err error) {
+	data, err = a.ActionHeader.MarshalBinary()
+	if err != nil {
+		return
+	}
+	// ttl and 3 bytes of padding
+	data = append(data, a.MplsTtl, 0, 0, 0)
+	return
+}
+
+func (a *ActionMplsTtl) UnmarshalBinary(data []byte) error {
+	if len(data) < int(a.Len()) {
+		return errors.New("The []byte the wrong size to unmarshal an " +
+			"ActionMplsTtl message.")
+	}
+	if err := a.ActionHeader.UnmarshalBinary(data[:4]); err != nil {
+		return err
+	}
+	a.MplsTtl = data[4]
+	return nil
+}
+
 type ActionDecNwTtl struct {
 	ActionHeader
 	pad []byte // 4bytes
@@ -312,6 +346,40 @@ type ActionNwTtl struct {
 	ActionHeader
 	NwTtl uint8
 	pad   []byte // 3bytes
+}
+
+func NewActionNwTtl(ttl uint8) *ActionNwTtl {
+	act := new(ActionNwTtl)
+	act.Type = ActionType_SetNwTtl
+	act.Length = act.Len()
+	act.NwTtl = ttl
+	return act
+}
+
+func (a *ActionNwTtl) Len() (n uint16) {
+	return a.ActionHeader.Len() + 4
+}
+
+func (a *ActionNwTtl) MarshalBinary() (data []byte, err error) {
+	data, err = a.ActionHeader.MarshalBinary()
+	if err != nil {
+		return
+	}
+	// ttl and 3 bytes of padding
+	data = append(data, a.NwTtl, 0, 0, 0)
+	return
+}
+
+func (a *ActionNwTtl) UnmarshalBinary(data []byte) error {
+	if len(data) < int(a.Len()) {
+		return errors.New("The []byte the wrong size to unmarshal an " +
+			"ActionNwTtl message.")
+	}
+	if err := a.ActionHeader.UnmarshalBinary(data[:4]); err != nil {
+		return err
+	}
+	a.NwTtl = data[4]
+	return nil
 }
 
 type ActionPush struct {
